@@ -234,4 +234,32 @@ def check_C11(pid, tier, seed, verdict):
                  "single-threaded runtime: atomicity between two hook points is that of the code between two awaits"]
 
 
-CHECKS = {"C11": check_C11, "C01": check_C01, "C02": check_C02, "C03": check_C03, "C04": check_C04, "C05": check_C05}
+# ------------------------------------------------------------------------------------------- C09
+def check_C09(pid, tier, seed, verdict):
+    mcs = [mc_must_hold(pid, verdict, "SessionLife.tla", "MC_SessionLife.cfg", workers=4)]
+    for d in ("IoErr", "Alert", "Blocked"):
+        mcs.append(mc_must_fail(pid, "SessionLife.tla", f"MC_SessionLife_dev_{d}.cfg", workers=4))
+    # schedules from the model WITH the pinned code's deviations (superset of the repaired model's)
+    g = V.run_gen(pid, "SessionLife.tla", "Gen_SessionLife.cfg")
+    mcs.append(g)
+    sp = os.path.join(V.workdir(pid), "gen.scn")
+    V.write_scenarios(sp, g["scenarios"])
+    run = V.run_harness(pid, "life", seed, tier, sp)
+    res = V.run_trace(pid, "Trace_SessionLife.tla", "Trace_SessionLife.cfg", run["trace"])
+    verdict.add_trace_result("life", res, run)
+    cnt = res["cnt"]
+    V.log(f"[{pid}] trace: {cnt['scn']} scenarios, {cnt['final']} judged, {cnt['note']} without effect (cause did not fire), "
+          f"drift={cnt['drift']}, bad={len(res['bad'])}")
+    cov = _cov(mcs, cnt["scn"], cnt["nontrivial"],
+               "scenario = one real Session (client, client with monitor, server) with a blocked stream reader, a pending open "
+               "(client) and a concurrent writer; one termination cause (owner close, clean EOF, read error, close_notify-like "
+               "error, Alert frame, monitor timeout, write error at byte offsets 0/1/6/7/8/.. of the packet, blocked write + "
+               "close) under every complete schedule of SessionLife.tla plus a systematic cause x role x offset x scheme sweep "
+               "with the writer pre-empted at each scheduling point; then one hour of virtual time; non-trivial = scenarios in "
+               "which the cause fired and the final report was judged", V.sample_descrs(run["descr"]), True,
+               dict(behaviours_generated=len(g["scenarios"]), trace_events=res["lines"], event_counts=cnt))
+    return cov, ["'never blocks forever' is judged after one hour of virtual time on a paused-clock runtime",
+                 "promptness is not measured, only completion"]
+
+
+CHECKS = {"C09": check_C09, "C11": check_C11, "C01": check_C01, "C02": check_C02, "C03": check_C03, "C04": check_C04, "C05": check_C05}
